@@ -61,6 +61,8 @@ func init() {
 		MinRuns:    50,
 		Exec:       runC20,
 		PanicClass: kit.PanicInRepo("pool-panic"),
+		// reach probes every batch is expected to hit (listed in the evidence as probes_never_hit otherwise)
+		ExpectedProbes: []string{"executable-left-in-queue-when-drained", "fork-drops-mined-transactions", "global-queue-exceeded-by-locals", "global-slots-exceeded-within-guarantee", "head-lowers-balance", "head-lowers-gaslimit", "head-lowers-nonce", "lifetime-eviction", "pending-and-queued-nonempty", "pending-at-global-slots", "replacement-accepted", "replacement-rejected", "reset-batched-with-other-requests", "run-ended-at-possible-queue-truncation", "sync-caller-blocked-behind-gate"},
 	})
 }
 
